@@ -1,8 +1,185 @@
 package controller
 
-import "testing"
+// C18 (legacy path, lib/controller/fed_collections.go): rewriteSignatures on
+// synthetic http.Responses. Oracle: vcommon/ref.PDH and fedgen.RefRewrite.
 
-func TestVerifC18Probe(t *testing.T) {
-	_, err := rewriteSignatures("zzzzz", "x", nil, nil)
-	_ = err
+import (
+	"bytes"
+	"encoding/json"
+	"fmt"
+	"io/ioutil"
+	"net/http"
+	"strings"
+	"testing"
+
+	"pgregory.net/rapid"
+	"verif.local/vcommon/fedgen"
+	"verif.local/vcommon/mgen"
+	"verif.local/vcommon/ref"
+	"verif.local/vcommon/stats"
+)
+
+func c18resp(status int, body []byte) *http.Response {
+	return &http.Response{
+		Status:        fmt.Sprintf("%d %s", status, http.StatusText(status)),
+		StatusCode:    status,
+		Proto:         "HTTP/1.1",
+		ProtoMajor:    1,
+		ProtoMinor:    1,
+		Header:        http.Header{"Content-Type": {"application/json"}, "Content-Length": {fmt.Sprint(len(body))}},
+		Body:          ioutil.NopCloser(bytes.NewReader(body)),
+		ContentLength: int64(len(body)),
+	}
+}
+
+// c18normalise is the line-ending repair that the classifier of the proposed
+// known finding "c18-legacy-line-ending-normalised" recognises: CR before LF
+// removed, missing final LF added. Nothing else.
+func c18normalise(s string) string {
+	s = strings.Replace(s, "\r\n", "\n", -1)
+	if !strings.HasSuffix(s, "\n") {
+		s += "\n"
+	}
+	return s
+}
+
+func TestVerifC18LegacyRewriteSignatures(t *testing.T) {
+	defer stats.Flush()
+	rapid.Check(t, func(t *rapid.T) {
+		m := mgen.Gen(t, mgen.GenOpts{Signed: true, MaxStreams: 3, MaxBlocks: 4, MaxFiles: 4})
+		decoLabels := fedgen.Decorate(t, m, rapid.IntRange(0, 3).Draw(t, "allowDoubleA") == 0)
+		if rapid.IntRange(0, 9).Draw(t, "signAll") < 6 {
+			// the usual real-world shape: every locator signed by the remote
+			fedgen.SignAll(t, m)
+			decoLabels = append(decoLabels, "all-locators-signed")
+		}
+		honest := m.Text()
+		other := mgen.Gen(t, mgen.GenOpts{Signed: true, MaxStreams: 2, MaxBlocks: 3, MaxFiles: 3}).Text()
+		truePDH := ref.PDH(honest)
+		clusterID := fedgen.ClusterIDs(t, 1)[1]
+
+		// what is asked for: by PDH (expectHash set; the URL pattern admits no
+		// hints) or by UUID (expectHash empty)
+		byUUID := rapid.IntRange(0, 4).Draw(t, "byUUID") == 0
+		expect, reqKind := "", "by-uuid"
+		if !byUUID {
+			expect, reqKind = fedgen.ReqID(t, truePDH, false)
+		}
+
+		// what the remote sends
+		sent, ansKind, detail := honest, "honest", ""
+		switch k := rapid.IntRange(0, 9).Draw(t, "answer"); {
+		case k <= 3:
+		case k <= 8:
+			tk := rapid.SampledFrom(fedgen.TamperKinds).Draw(t, "tamper")
+			if tt, d := fedgen.Tamper(t, honest, tk); d != "" {
+				sent, ansKind, detail = tt, "tamper-"+tk, d
+			}
+		default:
+			sent, ansKind = other, "different"
+		}
+		// portable_data_hash field of the record: truthful about the text sent,
+		// or claiming whatever was asked for, or the stored collection's
+		field := ref.PDH(sent)
+		fieldKind := "field-true"
+		switch rapid.IntRange(0, 5).Draw(t, "pdhField") {
+		case 0:
+			if expect != "" {
+				field, fieldKind = expect, "field-as-requested"
+			}
+		case 1:
+			field, fieldKind = truePDH, "field-of-stored"
+		}
+		body, err := json.Marshal(map[string]interface{}{
+			"kind":               "arvados#collection",
+			"uuid":               clusterID + "-4zz18-0123456789abcde",
+			"portable_data_hash": field,
+			"manifest_text":      sent,
+		})
+		if err != nil {
+			t.Fatalf("VERIF-INFRA: %v", err)
+		}
+		var sentCheck struct {
+			ManifestText string `json:"manifest_text"`
+		}
+		if json.Unmarshal(body, &sentCheck) != nil || sentCheck.ManifestText != sent {
+			t.Fatalf("VERIF-INFRA: JSON round trip of the generated manifest is lossy: %q", sent)
+		}
+
+		resp, rerr := rewriteSignatures(clusterID, expect, c18resp(http.StatusOK, body), nil)
+
+		describe := func() string {
+			return fmt.Sprintf("cluster=%s expectHash=%q (%s; true PDH %s)\nanswer: %s (%s), portable_data_hash field %q (%s)\nsent: %q", clusterID, expect, reqKind, truePDH, ansKind, detail, field, fieldKind, sent)
+		}
+		validSent := expect == "" || ref.PDH(sent) == expect
+		labels := append([]string{"legacy", "req:" + reqKind, "answer:" + ansKind, fieldKind}, decoLabels...)
+		if validSent {
+			labels = append(labels, "sent-valid")
+		} else {
+			labels = append(labels, "sent-invalid")
+		}
+		if rerr == nil && resp != nil && resp.StatusCode == http.StatusOK {
+			rb, err := ioutil.ReadAll(resp.Body)
+			if err != nil {
+				t.Fatalf("C18: reading rewritten body: %v\n%s", err, describe())
+			}
+			var out struct {
+				ManifestText string `json:"manifest_text"`
+			}
+			if err := json.Unmarshal(rb, &out); err != nil {
+				t.Fatalf("C18: rewritten body is not JSON: %v\n%s", err, describe())
+			}
+			got := out.ManifestText
+			want := fedgen.RefRewrite(sent, clusterID)
+			var problems []string
+			if expect != "" {
+				if p := ref.PDH(got); p != expect {
+					problems = append(problems, fmt.Sprintf("returned manifest has reference PDH %s, requested %s", p, expect))
+				}
+				if !validSent {
+					problems = append(problems, fmt.Sprintf("the manifest received hashes to %s, not to the requested %s, yet a response was produced", ref.PDH(sent), expect))
+				}
+			}
+			if got != want {
+				problems = append(problems, "relayed text differs from what was sent in more than +A -> +R"+clusterID+"-: "+fedgen.DiffTokens(got, want))
+			}
+			if len(problems) > 0 {
+				// Narrow classifier of the proposed known finding: the text
+				// sent differs from a text that does satisfy everything only
+				// in CR before LF / a missing final LF, and exactly that
+				// repaired text is what was relayed.
+				norm := c18normalise(sent)
+				isNorm := norm != sent &&
+					got == fedgen.RefRewrite(norm, clusterID) &&
+					(expect == "" || ref.PDH(norm) == expect)
+				if isNorm && stats.Known("c18-legacy-line-ending-normalised", fmt.Sprintf("%s: sent %q relayed %q", detail, sent, got)) {
+					labels = append(labels, "known:line-ending-normalised")
+				} else {
+					t.Fatalf("C18 violated (legacy rewriteSignatures): %s\nreturned: %q\n%s", strings.Join(problems, "; "), got, describe())
+				}
+			}
+			labels = append(labels, "outcome:success")
+			if strings.Contains(got, "+R"+clusterID+"-") {
+				labels = append(labels, "relayed-with-rewritten-signatures")
+			}
+		} else {
+			labels = append(labels, "outcome:error")
+			if validSent && (ansKind == "honest" || ansKind == "tamper-sigonly") {
+				// not asserted by the property for this path; measured
+				why := "other"
+				switch es := fmt.Sprint(rerr); {
+				case strings.Contains(es, "on returned record did not match"):
+					why = "record-field-differs-from-request"
+				case strings.Contains(es, "Computed manifest_text hash"):
+					why = "computed-hash-differs"
+				}
+				labels = append(labels, "valid-answer-rejected:"+why)
+			}
+		}
+		nontrivial := !validSent || fedgen.CountSigned(sent) > 0
+		stats.Case(stats.FP("legacy", sent, expect, field, clusterID), nontrivial, labels...)
+		if stats.WantSample("legacy") {
+			stats.Sample("legacy", map[string]interface{}{"expect": expect, "answer": ansKind, "detail": detail, "sent": sent, "err": fmt.Sprint(rerr)})
+		}
+	})
 }
